@@ -1,6 +1,7 @@
 /- C20 line-protocol driver: `lake env lean --run PorepyVerif/C20/Driver.lean`
    op `geom`: {"op":"geom","dim":1|2|3,"grid":<resolved grid>} → the five geometry fields computed by the model
-   (square roots through `asqrt`), or {"err":…} where the code raises. -/
+   (square roots through `asqrt`), or {"err":…} where the code raises.
+   op `motion`: the rigid motion of the case applied exactly to the reference nodes. -/
 import PorepyVerif.Common.Wire
 import PorepyVerif.C20.Model
 open Lean PV PorepyVerif.C20
@@ -52,10 +53,22 @@ def geom (j : Json) : R Json := do
     if geom3Err asqrt gr then pure (err "ValueError") else pure (ofOut (geom3 asqrt gr))
   | _ => throw s!"unsupported dim {dim}"
 
+/-- op `motion`: {"q":[w,x,y,z],"t":[..],"pts":[[..],..]} → is the quaternion matrix a proper rotation (decided with
+    the model's `IsRot`), and the exact images of the points under the model's `act` -/
+def motion (j : Json) : R Json := do
+  let t ← fV3 j "t"
+  let pts ← fV3s j "pts"
+  match (← fRats j "q") with
+  | [w, x, y, z] =>
+    let M : Motion := ⟨quatMat w x y z, t⟩
+    pure (obj [("isrot", Json.bool (decide M.R.IsRot)), ("pts", ofList ofV3 (pts.map (act M)))])
+  | _ => throw "q needs four entries"
+
 def step (j : Json) : R Json := do
   let op ← fStr j "op"
   match op with
   | "geom" => geom j
+  | "motion" => motion j
   | _ => throw s!"unknown op {op}"
 
 def main : IO Unit := runPure step
